@@ -129,13 +129,31 @@ def h_order(eng, u, v):
 
 
 def h_unit_order(eng, u, v):
-    """Unit ordering is the ordering of 1*unit"""
+    """Unit ordering is the ordering of the quantities 1*unit (offset units included); across
+    dimensions it raises; against a bare number it is the ordering of Quantity(1, unit)"""
     ureg = regs.default(eng)
     iu, iv = covers.info(u), covers.info(v)
     a, b = ureg.Unit(u), ureg.Unit(v)
-    eng.prove((a < b) == (iu.num < iv.num), "unit-lt")
-    eng.prove((a >= b) == (iu.num >= iv.num), "unit-ge")
+    ops = (("lt", operator.lt), ("le", operator.le), ("gt", operator.gt), ("ge", operator.ge))
+    if iu.dims != iv.dims:
+        for name, op in ops:
+            try:
+                op(a, b)
+            except DimensionalityError:
+                continue
+            eng.fail(f"unit-order-cross-dimension-{name}-no-error")
+        eng.prove(not (a == b), "unit-eq-cross-dimension-false")
+        return
+    pa, pb = _phys(eng, iu, 1), _phys(eng, iv, 1)
+    for name, op in ops:
+        eng.prove(bool(op(a, b)) == bool(op(pa, pb)), f"unit-{name}")
+        # the same through quantities
+        eng.prove(bool(op(a, b)) == bool(op(ureg.Quantity(1, u), ureg.Quantity(1, v))), f"unit-{name}-as-quantity")
     eng.prove((a == b) == (u == v), "unit-eq-is-structural")
+    if not iu.dims and iu.kind != "offset":
+        c = eng.real("c")
+        for name, op in ops:
+            eng.prove(Iff(op(a, c), op(pa, c)), f"unit-{name}-number")
 
 
 def h_bare(eng, u):
@@ -228,8 +246,10 @@ def cases(tier, seed):
     op_pairs += [(u, v) for u, v in itertools.permutations(temp, 2)]
     for u, v in op_pairs:
         out.append(Case("H05.d", f"{u}~{v}", M, "h_order", {"u": u, "v": v}))
-    for u, v in pos_pairs[: (100 if big else 15)]:
-        out.append(Case("H05.d-unit", f"{u}~{v}", M, "h_unit_order", {"u": u, "v": v}, kind="conc"))
+    unit_pairs = pos_pairs[: (100 if big else 15)] + list(itertools.permutations(temp, 2)) + covers.cross_dim_pairs(seed + 2, 20 if big else 4)
+    unit_pairs += [("percent", "ppm"), ("radian", "degree"), ("count", "percent")]
+    for u, v in unit_pairs:
+        out.append(Case("H05.d-unit", f"{u}~{v}", M, "h_unit_order", {"u": u, "v": v}))
     # H05.e bare numbers
     for u in ["meter", "radian", "percent", "count", "degree", "kelvin", "degree_Celsius", "delta_degree_Celsius", "newton", "ppm", "byte"]:
         out.append(Case("H05.e", u, M, "h_bare", {"u": u}))
